@@ -2,6 +2,7 @@ package main
 
 import (
 	"fmt"
+	"go/token"
 	"go/types"
 	"regexp"
 	"sort"
@@ -672,4 +673,160 @@ func (c *Ctx) deepLeaves(fn *ssa.Function, v ssa.Value, depth int) []deepLeaf {
 		out = append(out, dl)
 	}
 	return out
+}
+
+// storeAlt: one value a local variable can hold at a point of use, with the literals that hold
+// whenever that value is the one read.
+type storeAlt struct {
+	val  ssa.Value
+	st   *ssa.Store
+	must []string
+}
+
+// reachingStores: for a local that lives in memory (a struct variable whose fields are read
+// cannot be turned into registers by go/ssa), the assignments that can be the last one before
+// use — the memory counterpart of the edges of a φ. Each comes with the literals of the
+// assigning block and those common to all paths from the assignment to the use that pass no
+// other assignment. nil when the variable's address escapes or a cycle is met.
+func (c *Ctx) reachingStores(fn *ssa.Function, a *ssa.Alloc, use ssa.Instruction) []storeAlt {
+	if a.Referrers() == nil {
+		return nil
+	}
+	var stores []*ssa.Store
+	for _, r := range *a.Referrers() {
+		switch x := r.(type) {
+		case *ssa.Store:
+			if x.Addr != ssa.Value(a) {
+				return nil
+			}
+			stores = append(stores, x)
+		case *ssa.FieldAddr:
+			for _, fr := range *x.Referrers() {
+				if ld, ok := fr.(*ssa.UnOp); !ok || ld.Op != token.MUL {
+					return nil
+				}
+			}
+		case *ssa.UnOp, *ssa.DebugRef:
+		default:
+			return nil
+		}
+	}
+	isStore := func(in ssa.Instruction) bool {
+		st, ok := in.(*ssa.Store)
+		return ok && st.Addr == ssa.Value(a)
+	}
+	// killedIn: the block assigns the variable before reaching `upto` (nil: anywhere in it)
+	killedIn := func(b *ssa.BasicBlock, from int, upto ssa.Instruction) bool {
+		for i := from; i < len(b.Instrs); i++ {
+			if b.Instrs[i] == upto {
+				return false
+			}
+			if isStore(b.Instrs[i]) {
+				return true
+			}
+		}
+		return false
+	}
+	t := c.T(fn)
+	var out []storeAlt
+	for _, s := range stores {
+		if killedIn(s.Block(), idxInBlock(s)+1, use) {
+			continue
+		}
+		var common map[string]bool
+		nPaths := 0
+		fail := false
+		onPath := map[*ssa.BasicBlock]bool{}
+		var walk func(b *ssa.BasicBlock, lits []string)
+		walk = func(b *ssa.BasicBlock, lits []string) {
+			if fail {
+				return
+			}
+			if b == use.Block() && (b != s.Block() || len(lits) > 0 || idxInBlock(s) < idxInBlock(use)) {
+				if b != s.Block() || len(lits) > 0 {
+					if killedIn(b, 0, use) {
+						return
+					}
+				}
+				nPaths++
+				if nPaths > 512 {
+					fail = true
+					return
+				}
+				set := map[string]bool{}
+				for _, l := range lits {
+					set[l] = true
+				}
+				if common == nil {
+					common = set
+				} else {
+					for l := range common {
+						if !set[l] {
+							delete(common, l)
+						}
+					}
+				}
+				return
+			}
+			if onPath[b] {
+				fail = true
+				return
+			}
+			onPath[b] = true
+			defer delete(onPath, b)
+			for _, nx := range b.Succs {
+				if nx != use.Block() && nx != s.Block() && killedIn(nx, 0, nil) {
+					continue
+				}
+				if nx == s.Block() {
+					fail = true // the assignment is in a cycle
+					return
+				}
+				nl := append([]string{}, lits...)
+				if eds := c.PC(fn).edgeDNF(b, nx); len(eds) == 1 {
+					for _, l := range eds[0] {
+						nl = append(nl, t.Canon(l))
+					}
+				}
+				if len(nl) == len(lits) {
+					nl = append(nl, "\x00") // an unconditional edge still makes the path non-empty
+				}
+				walk(nx, nl)
+			}
+		}
+		walk(s.Block(), nil)
+		if fail {
+			return nil
+		}
+		if nPaths == 0 {
+			continue
+		}
+		must := append([]string{}, c.mustLits(fn, s.Block())...)
+		for l := range common {
+			if l != "\x00" {
+				must = append(must, l)
+			}
+		}
+		sort.Strings(must)
+		out = append(out, storeAlt{val: s.Val, st: s, must: must})
+	}
+	return out
+}
+
+// memVar: when v reads a local variable that lives in memory — the variable itself or one of
+// its fields — the variable.
+func memVar(v ssa.Value) *ssa.Alloc {
+	ld, ok := v.(*ssa.UnOp)
+	if !ok || ld.Op != token.MUL {
+		return nil
+	}
+	switch x := ld.X.(type) {
+	case *ssa.Alloc:
+		return x
+	case *ssa.FieldAddr:
+		if a, ok := x.X.(*ssa.Alloc); ok {
+			return a
+		}
+	}
+	return nil
 }
